@@ -80,14 +80,16 @@ META.update({
         note="trusted: re->z3 translation (A11), row domain ASCII without leading/trailing blanks; 1 known finding ((?i) + negation prefix), 1 fixed",
     ),
     "C08": dict(
-        technique="contract-based deductive verification of Orderer.order_config (AST->VC, loop invariant, z3+cvc5; relative to the assumed contract of get_order) with lemmas (only permutes the rows of a block; sorted rows ascend by key) and of the logic functions' emission order (lemma removal_before_recreation); " + _B + " for rank semantics, patches and idempotence",
+        technique="contract-based deductive verification of Orderer.get_order and Orderer.order_config (AST->VC, loop invariants, z3+cvc5) with lemmas (only permutes the rows of a block; sorted rows ascend by key) and of the logic functions' emission order (lemma removal_before_recreation); " + _B + " for rank semantics, patches and idempotence",
         text="exploration + proved links: undo_redo/ordered/default are proved to emit a key's removal before its re-creation (lemma over their "
              "proved contracts). Orderer.order_config is proved equal to its spec for every tree (per block: the rows of the input, stably sorted by "
              "(rank if direct else -rank, direct), children ordered by the rules get_order hands down), with lemmas: the result has exactly the rows of "
-             "the input block, is a dict, and its rows ascend by key - all relative to the ASSUMED contract of get_order. Rank semantics of get_order, "
+             "the input block, is a dict, and its rows ascend by key (sorting is stable and idempotent). Orderer.get_order is proved equal to a fold over the ordering "
+             "rules (best match by weight, %order_reverse pins, block exit last, children = matching rules' children + %global), with lemmas: rules that do not "
+             "mention a row change nothing, and the only matching rule gives the rank. "
              "PatchTree.sort / make_patch, idempotence, independence of unrelated rows: bounded layer (synthetic disjoint ordering rulebooks, shipped "
              "*.order files on the corpus). 2 known findings.",
-        note="Orderer.get_order (assumed), make_patch sort_key / PatchTree.sort not under a discharged contract",
+        note="make_patch sort_key / PatchTree.sort not under a discharged contract",
     ),
     "C09": dict(
         technique="contract-based deductive verification of common.apply (loop-free: complete path enumeration, z3+cvc5), match_deploy_rule, make_cmd_params, fill_cmd_params, apply_deploy_rulebook, cmd_paths and lemma no_commit_when_disabled; " + _B + " for flattening and deploy rule parameters",
